@@ -75,7 +75,11 @@ def make_transform(p, d, num, groups, g):
         rank = max(1, k - 1) if p.get('rank_deficient') else k
         a = torch.randn(k, rank, generator=g, dtype=torch.float64) * p.get('tscale', 0.7)
         idx = torch.tensor(b, dtype=torch.long)
-        mat[idx[:, None], idx] = a @ a.T       # symmetric PSD per block, exact zeros across blocks
+        if p.get('nonsym'):                    # a general (non-symmetric) block: x @ mat and x @ mat.T differ
+            a2 = torch.randn(k, rank, generator=g, dtype=torch.float64) * p.get('tscale', 0.7)
+            mat[idx[:, None], idx] = a @ a2.T
+        else:
+            mat[idx[:, None], idx] = a @ a.T   # symmetric PSD per block, exact zeros across blocks
     return mat
 
 
@@ -522,6 +526,8 @@ def random_case(r, k, what, family, transforms=('none', 'diag', 'block')):
              nx=r.randint(26, 40) if big else r.randint(1, 25), nz=r.randint(1, 40) if big else r.randint(1, 25),
              scale=r.choice([0.05, 0.5, 1.0, 3.0]), tscale=r.choice([0.3, 0.7, 1.5]),
              grid=r.random() < 0.2, rank_deficient=r.random() < 0.2, zero_weight=r.random() < 0.2)
+    if what in ('kernel', 'agop') and c['transform'] == 'block':
+        c['nonsym'] = (k % 2 == 1)             # every other block-diagonal transform is not symmetric
     if what == 'agop':
         c['f'] = 1 + k % 3
         c['center_grads'] = (k % 4 >= 2)
@@ -541,7 +547,8 @@ def exhaustive_cases(max_groups, max_levels):
                         p = [q, 2.0, round((q + 2.0) / 2, 3)][k % 3] if kind == 'lpq' else 2.0
                         cases.append(dict(family='exhaustive-onehot-rows', what='kernel', seed=1000 + k, kernel=kind, q=q, p=p,
                                           L=[0.5, 1.5, 4.0][k % 3], nnum=nnum, levels=list(levels),
-                                          layout=LAYOUTS[k % 4], transform=tr, rows='all', scale=1.0, tscale=0.7))
+                                          layout=LAYOUTS[k % 4], transform=tr, rows='all', scale=1.0, tscale=0.7,
+                                          nonsym=(tr == 'block' and (k // 3) % 2 == 1)))
                         k += 1
     return cases
 
@@ -593,7 +600,7 @@ def check(run):
                 'class, no categorical indices, same one-hot expanded rows) vs the Lean model; 0..4 numerical columns, 1..4 '
                 'groups of 2..6 levels, contiguous / categorical-first / interleaved / shuffled column layouts (unsorted index '
                 'groups), L2 / product / Lpq round-robin, q in {0.5,0.7,1,1.3,1.7,2}, p in [q,2] incl. p=q, p=1, p=2, bandwidth '
-                '0.3..10, transforms None / diagonal (with zero weights) / block-diagonal symmetric PSD (also rank deficient), '
+                '0.3..10, transforms None / diagonal (with zero weights) / block-diagonal symmetric PSD (also rank deficient) and general non-symmetric blocks, '
                 '1..40 rows (cdist exact mode and mm-expansion mode), duplicate rows and grid-valued numerical columns; AGOP '
                 'with 1..3 outputs; RFM(fast_categorical=True/False).kernel; a case is non-trivial when its kernel matrix is '
                 'not flat (AGOP: the dense AGOP has mass outside the blocks). Every comparison uses a computed per-entry '
